@@ -104,6 +104,9 @@ func NewMetricRegistryWithClient(
 		return nil, fmt.Errorf("client is nil")
 	}
 
+	if prefix == "" {
+		prefix = defaultMetricPrefix
+	}
 	if !strings.HasSuffix(prefix, ".") {
 		prefix = prefix + "."
 	}
